@@ -11,6 +11,7 @@ fn main() {
     match argv[1].as_str() {
         "hash-record" => vh::fam_hash::record(&args),
         "hll-record" => vh::fam_hll::record(&args),
+        "theta-record" => vh::fam_theta::record(&args),
         "hllu-record" => vh::fam_hll::record_union(&args),
         c => {
             eprintln!("unknown command {c}");
